@@ -462,6 +462,28 @@ func firstLines(s string, n int) string {
 type flooder struct {
 	started chan struct{}
 	ended   chan time.Time
+	sent    atomic.Int64 // messages the relay's write loop has taken so far
+}
+
+// waitBlocked returns once the flood has made no progress for 150 ms (the write loop is
+// stuck in a write to a peer that does not read), or after 5 s.
+func (f *flooder) waitBlocked() bool {
+	deadline := time.Now().Add(5 * time.Second)
+	last, still := f.sent.Load(), 0
+	for time.Now().Before(deadline) {
+		time.Sleep(50 * time.Millisecond)
+		cur := f.sent.Load()
+		if cur == last && cur > 0 {
+			still++
+			if still >= 3 {
+				return true
+			}
+		} else {
+			still = 0
+		}
+		last = cur
+	}
+	return false
 }
 
 func (f *flooder) ServeNostr(ctx context.Context, send chan<- mocrelay.ServerMsg, recv <-chan mocrelay.ClientMsg) error {
@@ -476,6 +498,7 @@ func (f *flooder) ServeNostr(ctx context.Context, send chan<- mocrelay.ServerMsg
 	for {
 		select {
 		case send <- big:
+			f.sent.Add(1)
 		case <-ctx.Done():
 			return ctx.Err()
 		}
@@ -607,16 +630,24 @@ func TestC13WebSocketCancel(t *testing.T) {
 					}()
 				}
 				defer close(stopSend)
-				time.Sleep(300 * time.Millisecond) // buffers fill; the write loop is blocked in conn.Write
+				// buffers fill; the write loop is blocked in conn.Write. Only then is the cancellation
+				// judged against a tight bound: with no I/O in flight the relay's graceful close waits
+				// for the peer's close frame, for which the WebSocket library allows 5 s
+				if !f.waitBlocked() {
+					return 0, true
+				}
 				t0 := time.Now()
 				cancelBase()
 				select {
 				case at := <-returned:
 					return at.Sub(t0), true
-				case <-time.After(8 * time.Second):
-					return 8 * time.Second, false
+				case <-time.After(15 * time.Second):
+					return 15 * time.Second, false
 				}
 			}
+			// here a write is blocked when the context is cancelled: the cancelled write closes
+			// the connection at once, so the library's close handshake (which may wait 5 s for a
+			// silent peer) has nothing to wait for
 			d, ok := attempt()
 			if !ok || d > 3*time.Second {
 				// a loaded machine must not raise a false alarm: once more
@@ -1061,10 +1092,13 @@ func TestC13WebSocketIdlePing(t *testing.T) {
 		} else {
 			cancelBase()
 		}
+		// the WebSocket library's own close handshake may wait up to 5 s for a peer that does not
+		// answer (it usually does not get that far: the read loop closes the connection first);
+		// "promptly" is therefore judged with a bound well above that
 		select {
 		case <-returned:
-		case <-time.After(5 * time.Second):
-			hx.Fail(t, ev.Failure{Property: "C13", Signature: "websocket-cancel-slow", Clause: "when the peer goes away or the context is cancelled, serving returns promptly (idle WebSocket session with a ping in flight)", Case: desc, Observed: "Relay.ServeHTTP has not returned after 5 s"})
+		case <-time.After(15 * time.Second):
+			hx.Fail(t, ev.Failure{Property: "C13", Signature: "websocket-cancel-slow", Clause: "when the peer goes away or the context is cancelled, serving returns promptly (idle WebSocket session with a ping in flight)", Case: desc, Observed: "Relay.ServeHTTP has not returned after 15 s"})
 		}
 		col.Add("ws_idle_end_latency_ms_sum", time.Since(t0).Milliseconds())
 		deadline := time.Now().Add(5 * time.Second)
@@ -1159,7 +1193,7 @@ func TestC13CancelWhileSending(t *testing.T) {
 		reg := prometheus.NewRegistry()
 		var wraps []string
 		for i, nw := 0, rapid.IntRange(1, 3).Draw(t, "nwrap"); i < nw; i++ {
-			w := rapid.SampledFrom([]string{"prometheus", "prometheus", "logging", "maxsubs", "sendunique", "nip11"}).Draw(t, fmt.Sprintf("wrap%d", i))
+			w := rapid.SampledFrom([]string{"prometheus", "prometheus", "logging", "maxsubs", "sendunique", "nip11", "maxfilters"}).Draw(t, fmt.Sprintf("wrap%d", i))
 			switch w {
 			case "prometheus":
 				if len(wraps) > 0 && wraps[0] == "prometheus-used" {
@@ -1175,6 +1209,8 @@ func TestC13CancelWhileSending(t *testing.T) {
 				h = mocrelay.Middleware(mocrelay.NewSendEventUniqueFilterMiddleware(8))(h)
 			case "nip11":
 				h = mocrelay.BuildMiddlewareFromNIP11(&mocrelay.NIP11{Limitation: &mocrelay.NIP11Limitation{MaxSubscriptions: 50, MaxFilters: 3, MaxLimit: 100}})(h)
+			case "maxfilters":
+				h = mocrelay.Middleware(mocrelay.NewMaxReqFiltersMiddleware(2))(h)
 			}
 			wraps = append(wraps, w)
 		}
@@ -1195,7 +1231,15 @@ func TestC13CancelWhileSending(t *testing.T) {
 				defer close(senderDone)
 				for i := 0; ; i++ {
 					var m mocrelay.ClientMsg
-					switch i % 3 {
+					switch i % 4 {
+					case 3:
+						// a COUNT (and now and then a REQ) with more filters than an inner limit allows: refused with CLOSED
+						fs := []*mocrelay.ReqFilter{{}, {}, {}, {}}
+						if i%8 == 7 {
+							m = &mocrelay.ClientReqMsg{SubscriptionID: fmt.Sprint("s", i%7), ReqFilters: fs}
+						} else {
+							m = &mocrelay.ClientCountMsg{SubscriptionID: fmt.Sprint("c", i%5), ReqFilters: fs}
+						}
 					case 0:
 						m = &mocrelay.ClientReqMsg{SubscriptionID: fmt.Sprint("s", i%7), ReqFilters: []*mocrelay.ReqFilter{{Kinds: []int64{1}}}}
 					case 1:
